@@ -409,6 +409,10 @@ class PopulationChecked(Population):
         super().apply(w, op)
 
 
+# the cheap legs run once more under the runner's ambient configurations (python -O, other logger levels)
+AMBIENT_LEGS = True
+
+
 def run(ctx):
     full = ctx.tier == 'thorough'
     cases = [{'leg': 'single', 'world': wn, 'wrap': wrap, 'full': full} for wn in WORLDS for wrap in (False, True)]
@@ -429,7 +433,7 @@ def run(ctx):
             ctx.report(case, v)
     ctx.leg('crowd_and_replaced_world', cases=len(extra))
     ctx.sample(cases[0])
-    if ctx.violations:
+    if ctx.violations or ctx.small:
         return
     pops = [('space4x3x0', False), ('space4x3x0', True)]
     if full:
